@@ -78,7 +78,9 @@ func analyzers(r *schemahcl.Resource) ([]sqlcheck.Analyzer, error) {
 			// Detect sequence of changes using temporary table and transform them to one ModifyTable change.
 			// See: https://www.sqlite.org/lang_altertable.html#making_other_kinds_of_table_schema_changes.
 			for i := 0; i < len(p.File.Changes); i++ {
-				if i+3 >= len(p.File.Changes) {
+				// The statement between "CREATE" and "DROP" is expected to copy the rows (e.g. "INSERT ... SELECT").
+				// It is removed from the list on a match, therefore it must not carry schema changes of its own.
+				if i+3 >= len(p.File.Changes) || len(p.File.Changes[i+1].Changes) != 0 {
 					changes = append(changes, p.File.Changes[i])
 					continue
 				}
